@@ -423,7 +423,7 @@ def _part2(ctx):
                 # the property itself on the implementation: declared versus observed
                 r = orc({"e": e})
                 if r:
-                    decl_only = {k: v for k, v in r.items() if k in ("shape", "dtype", "matrix_shape", "evaluation_raised") or k.startswith("view_")}
+                    decl_only = {k: v for k, v in r.items() if k in ("shape", "dtype", "matrix_shape", "evaluation_raised", "adjoint_meta") or k.startswith("view_")}
                     if decl_only:
                         ctx.disagree("opalg.meta:declared-vs-observed", {"e": e, "name": name}, decl_only, "declared = observed", oracle=orc,
                                      known_id=_classify_decl(e, decl_only, mod[1]))
